@@ -524,9 +524,37 @@ def rca_reduced_relations_sampled_case():
   return fn
 
 
+def data_dependent_init_case():
+  """NOT solver-decided (PCA / LDA are compiled numerics): the data-dependent transformation initialisations 'pca', 'lda' and 'auto' induce
+  the same initial metric L^T L on X and on X + t (they centre the data), for translations with unequal coordinates (sampled)"""
+  def fn(ctx):
+    import metric_learn._util as U
+    rs = np.random.RandomState(8)
+    for trial in range(4):
+      d = 5
+      X = rs.randn(30, d) @ np.diag([3.0, 2.0, 1.0, 0.5, 0.25])
+      y = np.repeat([0, 1, 2], 10)
+      X[y == 1, 0] += 3
+      X[y == 2, 1] -= 3
+      for t in (np.array([100.0, -50.0, 7.0, 0.0, 1.0]), np.array([0.0, 0.0, 0.0, 0.0, 64.0]), np.full(d, 10.0)):
+        for init, k in (('pca', 3), ('pca', 5), ('lda', 2), ('auto', 2), ('auto', 3), ('auto', 5)):
+          with warnings.catch_warnings():
+            warnings.simplefilter('ignore')
+            L0 = U._initialize_components(k, X, y, init=init, random_state=0)
+            L1 = U._initialize_components(k, X + t, y, init=init, random_state=0)
+          M0, M1 = L0.T @ L0, L1.T @ L1
+          ctx.require('initial_metric_%s_unchanged_by_translation' % init,
+                      ctx.cond(L0.shape == (k, d) and L1.shape == (k, d) and bool(np.abs(M0 - M1).max() <= 1e-7 * max(1.0, np.abs(M0).max()))),
+                      detail='init=%s n_components=%d t=%s: max |dM| = %.3g' % (init, k, list(t), float(np.abs(M0 - M1).max())))
+  return fn
+
+
 def cases(tier, seed):
   Q, T = ('quick', 'thorough'), ('thorough',)
   out = []
+  out.append(case('data_dependent_init_translation_sampled', data_dependent_init_case(), FUNCS,
+                  "_initialize_components with init in {pca, lda, auto}, 4 data sets of 30 points in R^5, 3 translations: L^T L unchanged (concrete, sampled; not solver-decided)",
+                  concrete_only=True, validate=1, cost=2))
   out.append(case('covariance_n3_d2', covariance_case(3, 2), FUNCS, '3 arbitrary points in R^2; translation t, 2 permutations, scale c > 0, rotation / reflection Q, all symbolic', cost=5, validate=6))
   out.append(case('covariance_n4_d2', covariance_case(4, 2), FUNCS, '4 arbitrary points in R^2', tiers=T, cost=10, validate=6))
   for ch, tiers in (((0, 0, 1, 1), Q), ((0, 2, 2, 0, -1), Q), ((5, 0, 5, 0), Q), ((0, 0, 1, 1, 3, 3), T)):
